@@ -863,6 +863,21 @@ def selftest():
     open(base + "32.bad.ndjson", "w").write("\n".join(json.dumps(e) for e in bad) + "\n")
     if validate("TraceBigAns", base + "32.bad.ndjson", consts, ["StateInv"]):
         failures.append("u32/u64 limb trace with one dropped event was ACCEPTED")
+    # (f) Python front end: the recorded trace is accepted; one changed symbol / one flipped bit of a returned word is rejected
+    pytrace = ctx.pydrive("ans", 400)
+    pconsts = {"W": 32, "S": 64, "LB": 12}
+    if not pytrace or not validate("TracePyAns", pytrace, pconsts, ["StateInv"]):
+        failures.append("unmodified Python trace rejected")
+    else:
+        pev = [json.loads(l) for l in open(pytrace)]
+        decs = [i for i, e in enumerate(pev) if e["ev"] == "dec" and e["items"]]
+        encs = [i for i, e in enumerate(pev) if e["ev"] == "enc" and e["words"] and e["words"][0]]
+        for what, idx, mut in (("decoded symbol", decs[len(decs) // 2], lambda e: e["items"][0].__setitem__(1, e["items"][0][1] + 1)),
+                               ("returned word", encs[len(encs) // 2], lambda e: e["words"][0].__setitem__(0, e["words"][0][0] ^ 1))):
+            bad = json.loads(json.dumps(pev)); mut(bad[idx])
+            open(base + "py.bad.ndjson", "w").write("\n".join(json.dumps(e) for e in bad) + "\n")
+            if validate("TracePyAns", base + "py.bad.ndjson", pconsts, ["StateInv"]):
+                failures.append("Python trace with one corrupted %s was ACCEPTED" % what)
     # (d) corrupted expectation in a replay case
     cases = os.path.join(ctx.work, "st_cases.ndjson")
     ctx.tlc("MC_Ans", {"W": 2, "S": 4, "MaxInit": 2, "MaxBulk": 1}, invariants=["TypeInv", "Emit"], constraint="Bound", emit_to=cases)
